@@ -25,7 +25,8 @@
 (*   observed records; for concurrent sections the order-free accounting:  *)
 (*   a retrieval returns no duplicates, at most its limit, and over the    *)
 (*   whole section no payload is returned more often than it has queue     *)
-(*   records / Queue calls, the records left at the end included).         *)
+(*   records / effective queueings (a Queue of an already scheduled        *)
+(*   payload is not a new queueing), the records left at the end included).*)
 (***************************************************************************)
 EXTENDS TraceLib, FiniteSets
 
@@ -39,20 +40,23 @@ VariantU == {"a", "b"}
 
 C == INSTANCE Cache WITH Payload <- PayloadU, Variant <- VariantU, None <- NoneC, Limits <- 0..3
 
-VARIABLES l, S, pend, nf, cr, rc,
+VARIABLES l, S, pend, nf, cr, rc, nq, nclr,
           qid,    \* identity of every queue record, parallel to S.queue (concurrent sections, mode "full")
           nid,    \* last identity handed out
           vb      \* version of every body record (bumped by each write or delete)
-vars == <<l, S, pend, nf, cr, rc, qid, nid, vb>>
+vars == <<l, S, pend, nf, cr, rc, nq, nclr, qid, nid, vb>>
 
 NoSnap == [q |-> <<>>, i |-> <<>>, b |-> <<>>, v |-> <<>>]
 NoPend == [p \in Procs |-> [busy |-> FALSE, lin |-> FALSE, snapped |-> FALSE, ok |-> FALSE, r |-> <<>>,
                             o |-> [op |-> "-"], snap |-> NoSnap]]
 Zero == [p \in PayloadU |-> 0]
+One == [p \in PayloadU |-> 1]
+Min(a, b) == IF a < b THEN a ELSE b
 Credit(st) == [p \in PayloadU |-> C!Count(st.queue, p)]
+Unscheduled(st) == [p \in PayloadU |-> IF st.order[p] THEN 0 ELSE 1]
 Ids(n) == [i \in 1..n |-> i]
 
-Init == /\ l = 1 /\ S = C!InitState /\ pend = NoPend /\ nf = 0 /\ cr = Zero /\ rc = Zero
+Init == /\ l = 1 /\ S = C!InitState /\ pend = NoPend /\ nf = 0 /\ cr = Zero /\ rc = Zero /\ nq = Zero /\ nclr = One
         /\ qid = <<>> /\ nid = 0 /\ vb = Zero
 
 Ev == Trace[l]
@@ -70,7 +74,7 @@ Renumber(st) == qid' = Ids(Len(st.queue)) /\ nid' = Len(st.queue) /\ vb' = Zero
 
 Reset ==
     /\ IsEvent("Reset")
-    /\ S' = C!InitState /\ pend' = NoPend /\ nf' = 0 /\ cr' = Zero /\ rc' = Zero
+    /\ S' = C!InitState /\ pend' = NoPend /\ nf' = 0 /\ cr' = Zero /\ rc' = Zero /\ nq' = Zero /\ nclr' = One
     /\ Renumber(C!InitState)
 
 SeqOp ==
@@ -81,7 +85,7 @@ SeqOp ==
            THEN LET a == C!Apply(S, o) IN a.ok = Ev.ok /\ a.r = Ev.r /\ a.S = obs
            ELSE C!StepOK(S, o, Ev.ok, Ev.r, obs)
         /\ S' = obs
-        /\ nf' = Len(obs.queue) /\ cr' = Credit(obs) /\ rc' = Zero
+        /\ nf' = Len(obs.queue) /\ cr' = Credit(obs) /\ rc' = Zero /\ nq' = Zero /\ nclr' = Unscheduled(obs)
         /\ Renumber(obs)
     /\ UNCHANGED pend
 
@@ -89,8 +93,12 @@ Call ==
     /\ IsEvent("Call")
     /\ ~pend[Ev.p].busy
     /\ pend' = [pend EXCEPT ![Ev.p] = [NoPend[Ev.p] EXCEPT !.busy = TRUE, !.o = Ev.o]]
-    /\ cr' = IF Ev.o.op = "Queue" THEN [cr EXCEPT ![Ev.o.p] = @ + 1] ELSE cr
-    /\ UNCHANGED <<S, nf, rc, qid, nid, vb>>
+    \* order-free accounting (mode "C23"): Queue calls of q, and calls that can clear q's order record
+    /\ nq' = IF Ev.o.op = "Queue" THEN [nq EXCEPT ![Ev.o.p] = @ + 1] ELSE nq
+    /\ nclr' = CASE Ev.o.op = "Retrieve" /\ Ev.o.l > 0 -> [q \in PayloadU |-> nclr[q] + 1]
+                  [] Ev.o.op = "Remove" -> [q \in PayloadU |-> IF q \in C!Range(Ev.o.ps) THEN nclr[q] + 1 ELSE nclr[q]]
+                  [] OTHER -> nclr
+    /\ UNCHANGED <<S, nf, cr, rc, qid, nid, vb>>
 
 \* The return event of the call goroutine p has pending: the first Ret of p at or after the
 \* cursor. Looking at it when choosing the linearization point only prunes the search (a
@@ -133,14 +141,14 @@ Lin(p) ==
             /\ S' = S /\ nf' = nf
             /\ pend' = [pend EXCEPT ![p].lin = TRUE, ![p].ok = FALSE, ![p].r = <<>>]
             /\ UNCHANGED <<qid, nid, vb>>
-    /\ UNCHANGED <<l, cr, rc>>
+    /\ UNCHANGED <<l, cr, rc, nq, nclr>>
 
 Snap(p) ==
     /\ Mode = "full"
     /\ pend[p].busy /\ ~pend[p].lin /\ ~pend[p].snapped /\ pend[p].o.op = "Retrieve"
     /\ pend' = [pend EXCEPT ![p].snapped = TRUE,
                             ![p].snap = [q |-> S.queue, i |-> qid, b |-> S.body, v |-> vb]]
-    /\ UNCHANGED <<l, S, nf, cr, rc, qid, nid, vb>>
+    /\ UNCHANGED <<l, S, nf, cr, rc, nq, nclr, qid, nid, vb>>
 
 Commit(p) ==
     /\ Mode = "full"
@@ -166,7 +174,7 @@ Commit(p) ==
          \/ /\ ~ret.ok
             /\ S' = S /\ qid' = qid /\ nf' = nf
             /\ pend' = [pend EXCEPT ![p].lin = TRUE, ![p].ok = FALSE, ![p].r = <<>>]
-    /\ UNCHANGED <<l, cr, rc, nid, vb>>
+    /\ UNCHANGED <<l, cr, rc, nq, nclr, nid, vb>>
 
 RetFull ==
     /\ Mode = "full"
@@ -175,9 +183,14 @@ RetFull ==
     /\ pend[Ev.p].ok = Ev.ok
     /\ (Ev.ok => pend[Ev.p].r = Ev.r)
     /\ pend' = [pend EXCEPT ![Ev.p] = NoPend[Ev.p]]
-    /\ UNCHANGED <<S, nf, cr, rc, qid, nid, vb>>
+    /\ UNCHANGED <<S, nf, cr, rc, nq, nclr, qid, nid, vb>>
 
-\* order-free accounting of the property for concurrent sections
+\* order-free accounting of the property for concurrent sections: the queueings of payload q available in
+\* a section are the queue records present at its start plus the EFFECTIVE Queue(q) calls; a Queue of an
+\* already scheduled payload is the same queueing, so between two effective ones the order record must have
+\* been cleared (by a retrieval or a removal of q): effective <= min(#Queue(q) calls, #clearing calls
+\* (+1 if q was unscheduled at the start))
+Total(q) == cr[q] + Min(nq[q], nclr[q])
 RetMon ==
     /\ Mode # "full"
     /\ IsEvent("Ret")
@@ -189,10 +202,10 @@ RetMon ==
               /\ \A j \in DOMAIN r : r[j].p \in PayloadU
               /\ \A q \in PayloadU : got(q) <= 1
               /\ rc' = [q \in PayloadU |-> rc[q] + got(q)]
-              /\ \A q \in PayloadU : rc'[q] <= cr[q]
+              /\ \A q \in PayloadU : rc'[q] <= Total(q)
          ELSE rc' = rc
     /\ pend' = [pend EXCEPT ![Ev.p] = NoPend[Ev.p]]
-    /\ UNCHANGED <<S, nf, cr, qid, nid, vb>>
+    /\ UNCHANGED <<S, nf, cr, nq, nclr, qid, nid, vb>>
 
 Obs ==
     /\ IsEvent("Obs")
@@ -200,8 +213,8 @@ Obs ==
     /\ LET obs == Proj(Ev.obs) IN
         /\ IF Mode = "full"
            THEN obs = S
-           ELSE \A q \in PayloadU : C!Count(obs.queue, q) + rc[q] <= cr[q]
-        /\ S' = obs /\ nf' = Len(obs.queue) /\ cr' = Credit(obs) /\ rc' = Zero
+           ELSE \A q \in PayloadU : C!Count(obs.queue, q) + rc[q] <= Total(q)
+        /\ S' = obs /\ nf' = Len(obs.queue) /\ cr' = Credit(obs) /\ rc' = Zero /\ nq' = Zero /\ nclr' = Unscheduled(obs)
         /\ Renumber(obs)
     /\ UNCHANGED pend
 
